@@ -12,7 +12,7 @@ PROPERTY = "C17"
 
 META = {
     "bounds": {
-        "quick": "4 base programs x every insertion line x 8 error kinds x 4 kinds of symbolic preamble (2 symbolic characters) x {main file, included file}",
+        "quick": "4 base programs x every insertion line x 10 error kinds x 4 kinds of symbolic preamble (2 symbolic characters) x {main file, included file}",
         "thorough": "same with 3 symbolic characters and two preambles stacked",
     },
     "outside": ["wording of the messages", "parser syntax errors (not in the property's list)", "preambles longer than the bound"],
@@ -38,6 +38,8 @@ ERRORS = {
     "bad-suffix": ("lda.q 0x10", "scan", [4]),
     "bad-suffix-eol": ("lda.", "scan", [4]),
     "bad-index": ("lda 0x10,q", "scan", [9]),
+    "invalid-char": ("lda.w #0x10 $", "scan", [12]),
+    "invalid-char-bol": ("$", "scan", [0]),
     "unterminated-string": (".ascii 'abc", "scan", [7, 11]),
     "unterminated-string-data": (".text 'x", "scan", [6, 8]),
 }
